@@ -388,7 +388,7 @@ func c13(c *core.Ctx) {
 			if fn.Parent() != nil || fn.Signature.Results().Len() != 1 || core.TypeStr(fn.Signature.Results().At(0).Type()) != "*"+peerPkg+".Peer" {
 				continue
 			}
-			if len(fn.Params) == 2 && core.TypeStr(fn.Params[1].Type()) == "*crypto/tls.ConnectionState" {
+			if len(fn.Params) == 2 && (core.TypeStr(fn.Params[1].Type()) == "*crypto/tls.ConnectionState" || core.TypeStr(fn.Params[1].Type()) == "*net/http.Response") {
 				getPeer = fn
 			}
 			if len(fn.Params) == 1 && core.TypeStr(fn.Params[0].Type()) == "*net/http.Request" {
@@ -406,7 +406,29 @@ func c13(c *core.Ctx) {
 					tlsArg := call.Call.Args[1]
 					ok := false
 					why := "TLS argument is not the TLS field of the *http.Response returned by RoundTrip in this call"
-					if base, f, isF := core.FieldOf(tlsArg); isF && f == "TLS" {
+					fromRoundTrip := func(v ssa.Value) bool {
+						return core.OriginIs(v, func(o ssa.Value) bool {
+							cr, idx, ok := core.CallResult(o)
+							return ok && idx == 0 && core.InfoOf(&cr.Call).Iface && core.InfoOf(&cr.Call).Name == "RoundTrip"
+						})
+					}
+					if core.TypeStr(tlsArg.Type()) == "*net/http.Response" {
+						// the constructor is handed the reply itself and reads its TLS field
+						readsTLS := false
+						core.Instrs(getPeer, func(in ssa.Instruction) {
+							if u, isU := in.(*ssa.UnOp); isU && u.Op == token.MUL {
+								if base, f, isF := core.FieldOf(u); isF && f == "TLS" && base == ssa.Value(getPeer.Params[1]) {
+									readsTLS = true
+								}
+							}
+						})
+						if fromRoundTrip(tlsArg) && readsTLS {
+							ok = true
+							why = "peer built from the TLS field of this call's RoundTrip reply"
+						} else {
+							why = "the reply handed to the peer constructor is not the one returned by RoundTrip in this call"
+						}
+					} else if base, f, isF := core.FieldOf(tlsArg); isF && f == "TLS" {
 						if core.TypeStr(base.Type()) == "*net/http.Response" && core.OriginIs(base, func(o ssa.Value) bool {
 							cr, idx, ok := core.CallResult(o)
 							return ok && idx == 0 && core.InfoOf(&cr.Call).Iface && core.InfoOf(&cr.Call).Name == "RoundTrip"
@@ -483,7 +505,15 @@ func c13(c *core.Ctx) {
 				if st, ok := in.(*ssa.Store); ok {
 					if _, f, isF := core.FieldOf(st.Addr); isF && f == "AuthInfo" {
 						if core.GuardedExactlyBy(st, func(f core.Fact) bool {
-							return f.Op == token.NEQ && core.IsNilConst(f.Y) && f.X == ssa.Value(getPeer.Params[1])
+							if f.Op != token.NEQ || !core.IsNilConst(f.Y) {
+								return false
+							}
+							if f.X == ssa.Value(getPeer.Params[1]) {
+								return true
+							}
+							// handed the reply: the test is on its TLS field
+							base, fld, isF := core.FieldOf(f.X)
+							return isF && fld == "TLS" && base == ssa.Value(getPeer.Params[1]) && core.TypeStr(base.Type()) == "*net/http.Response"
 						}) {
 							okAuth = true
 						}
@@ -691,6 +721,11 @@ func ctxPassesThrough(v ssa.Value, pred func(*ssa.Call) bool) bool {
 				return false
 			}
 			call, idx, ok := core.CallResult(o)
+			if !ok {
+				if c2, i2, _, okF := core.ResultField(o); okF && core.TypeStr(o.Type()) == "context.Context" {
+					call, idx, ok = c2, i2, true
+				}
+			}
 			if !ok || idx != 0 {
 				return false
 			}
@@ -724,6 +759,12 @@ func ctxPassesThroughSome(v ssa.Value, pred func(*ssa.Call) bool) bool {
 				continue
 			}
 			call, idx, ok := core.CallResult(o)
+			if !ok {
+				// the context field of a result struct
+				if c2, i2, _, okF := core.ResultField(o); okF && core.TypeStr(o.Type()) == "context.Context" {
+					call, idx, ok = c2, i2, true
+				}
+			}
 			if !ok || idx != 0 {
 				continue
 			}
